@@ -280,11 +280,20 @@ class CoopThread:
     def ident(self):
         return None if self._worker is None or self._worker.thread is None else self._worker.thread.ident
 
+    JOIN_TIMEOUT_YIELDS = 25
+
     def join(self, timeout=None):
         if not self._started:
             raise RuntimeError("cannot join thread before it is started")
         s = _current
         me = s.me() if s is not None else None
+        if timeout is not None and me is not None:
+            # a bounded wait: the joined thread gets a bounded number of turns, then the wait times out
+            for _ in range(self.JOIN_TIMEOUT_YIELDS):
+                if self._worker.state == "done":
+                    return
+                s.yield_now()
+            return
         while self._worker.state != "done":
             if me is None:
                 raise RuntimeError("CoopThread joined from outside the scheduler")
